@@ -17,6 +17,7 @@ package server
 import (
 	"bytes"
 	"crypto/md5"
+	"encoding/hex"
 	"fmt"
 	"math"
 	"net/http"
@@ -824,6 +825,13 @@ func (u *UserManager) CheckUser(user string) bool {
 // CheckPassword check if right password with specific user
 func (u *UserManager) CheckPassword(user string, salt, auth []byte) (bool, string) {
 	for _, password := range u.users[user] {
+		if isHashPassword(password) {
+			// only SHA1(SHA1(password)) is stored: verify like MySQL does, never treat the hash as the password
+			if mysql.CheckHashPassword(auth, salt, []byte(password)[1:]) {
+				return true, password
+			}
+			continue
+		}
 		checkAuth := mysql.CalcPassword(salt, []byte(password))
 		if bytes.Equal(auth, checkAuth) {
 			return true, password
@@ -832,10 +840,20 @@ func (u *UserManager) CheckPassword(user string, salt, auth []byte) (bool, strin
 	return false, ""
 }
 
+// isHashPassword reports whether a configured password is the '*'-prefixed hex form of
+// SHA1(SHA1(password)) (what MySQL's PASSWORD() prints) rather than clear text
+func isHashPassword(password string) bool {
+	if len(password) != 41 || password[0] != '*' {
+		return false
+	}
+	_, err := hex.DecodeString(password[1:])
+	return err == nil
+}
+
 // CheckHashPassword check encrypt password with specific user
 func (u *UserManager) CheckHashPassword(user string, salt, auth []byte) (bool, string) {
 	for _, password := range u.users[user] {
-		if strings.HasPrefix(password, "*") && len(password) == 41 {
+		if isHashPassword(password) {
 			if mysql.CheckHashPassword(auth, salt, []byte(password)[1:]) {
 				return true, password
 			}
@@ -847,6 +865,10 @@ func (u *UserManager) CheckHashPassword(user string, salt, auth []byte) (bool, s
 // CheckPassword check if right password with specific user
 func (u *UserManager) CheckSha2Password(user string, salt, auth []byte) (bool, string) {
 	for _, password := range u.users[user] {
+		if isHashPassword(password) {
+			// a stored SHA1 hash cannot be verified with caching_sha2_password and is not the password
+			continue
+		}
 		checkAuth := mysql.CalcCachingSha2Password(salt, password)
 		if bytes.Equal(auth, checkAuth) {
 			return true, password
